@@ -79,7 +79,16 @@ class _RunOne:
             if len(agg.samples) < 1 and idx % 97 < 3:
                 agg.samples.append({"index": idx, "seed": seed, "case": case,
                                     "observed": res.get("observed")})
-        if res["status"] != "ok":
+        if res["status"] != "ok" and res.get("finding"):
+            fid = res["finding"]
+            agg.count("known:" + fid)
+            if agg.counters["known:" + fid] <= 2:
+                agg.samples_known = getattr(agg, "samples_known", [])
+                agg.known.append({
+                    "index": idx, "seed": seed, "status": res["status"],
+                    "check_id": res.get("check_id"), "message": res.get("message"),
+                    "finding": fid, "case": case, "digest": res.get("digest")})
+        elif res["status"] != "ok":
             agg.failures.append({
                 "index": idx, "seed": seed, "status": res["status"],
                 "check_id": res.get("check_id"), "message": res.get("message"),
@@ -216,7 +225,7 @@ def run_check(prop, tier, base_seed, runs=None, workers=None, wall_cap=None,
     known = {}
     unknown = {}
     harness = []
-    for f in agg.failures:
+    for f in agg.failures + agg.known:
         if f["status"] == "harness":
             harness.append(f)
         elif f.get("finding"):
@@ -228,9 +237,10 @@ def run_check(prop, tier, base_seed, runs=None, workers=None, wall_cap=None,
     exit_code = 0
     for fid, fl in sorted(known.items()):
         if fid in open_ids:
-            out("KNOWN-FINDING: property=%s %s %s (matched in %d of the "
-                "reported runs, e.g. seed index %d)"
-                % (prop, fid, open_ids[fid]["what"], len(fl), fl[0]["index"]))
+            out("KNOWN-FINDING: property=%s %s %s (matched in %d runs, "
+                "e.g. seed index %d)"
+                % (prop, fid, open_ids[fid]["what"],
+                   agg.counters.get("known:" + fid, len(fl)), fl[0]["index"]))
         else:
             # a finding id the committed file does not list: not suppressed
             unknown.setdefault(fl[0]["check_id"], []).extend(fl)
@@ -297,7 +307,7 @@ def run_check(prop, tier, base_seed, runs=None, workers=None, wall_cap=None,
     out("%s tier=%s seed=%d: %d evaluations (%d runs of %d budgeted%s), %d distinct "
         "non-trivial, %d violation(s), %d known finding(s), %.1fs"
         % (prop, tier, base_seed, agg.evaluations, completed, budget,
-           ", wall-capped" if capped else "", len(agg.nontrivial), violations,
+           ", stopped early" if capped else "", len(agg.nontrivial), violations,
            len([k for k in known if k in open_ids]), wall))
     return exit_code
 
@@ -319,7 +329,8 @@ def build_evidence(mod, tier, base_seed, agg, completed, capped, wall,
         "sums": dict(sorted(agg.sums.items())),
         "distinct": {k: len(v) for k, v in sorted(agg.sets.items())},
         "components": getattr(mod, "COMPONENTS", None),
-        "known_findings_matched": {k: len(v) for k, v in known.items()},
+        "known_findings_matched": {k: agg.counters.get("known:" + k, len(v))
+                                   for k, v in known.items()},
         "tree": common.tree_fingerprint(),
     }
     faults = {k[6:]: v for k, v in agg.counters.items() if k.startswith("fault:")}
